@@ -7,6 +7,7 @@ import (
 	"runtime/debug"
 	"strings"
 	"sync"
+	"time"
 
 	"github.com/php-any/origami/data"
 	"github.com/php-any/origami/parser"
@@ -31,6 +32,10 @@ type Result struct {
 	PanicStack    string `json:"panic_stack,omitempty"`
 	Phase         string `json:"phase,omitempty"` // where the panic happened: lex|parse|run
 }
+
+// RunTimeout bounds one in-process run; OnHang is called before the process exits.
+var RunTimeout = 20 * time.Second
+var OnHang func(src string)
 
 // mu serialises runs: data.WriteOutput is process-global.
 var mu sync.Mutex
@@ -61,6 +66,22 @@ type uncaughtPanic struct{ acl data.Control }
 func Run(src string, o Opts) (res Result) {
 	mu.Lock()
 	defer mu.Unlock()
+	// watchdog: an in-process run cannot be cancelled; a script that does not finish is reported on
+	// stderr and the process exits with status 3 so that the driver's caller sees an infrastructure
+	// failure instead of a silent hang (drivers that expect hangs use subprocess workers instead)
+	done := make(chan struct{})
+	defer close(done)
+	go func() {
+		select {
+		case <-done:
+		case <-time.After(RunTimeout):
+			fmt.Fprintf(os.Stderr, "rt.Run: script did not finish within %v:\n%s\n", RunTimeout, src)
+			if OnHang != nil {
+				OnHang(src)
+			}
+			os.Exit(3)
+		}
+	}()
 	var sb strings.Builder
 	old := data.WriteOutput
 	data.WriteOutput = func(s string) { sb.WriteString(s) }
